@@ -41,7 +41,6 @@ deriving Repr
 structure HttpReq where
   env : Env
   ps : Gen.PState := {}
-  totalRead : Nat := 0
   first : Bool := false
   method : Bytes := []
   uri : Bytes := []
@@ -116,47 +115,60 @@ inductive HttpHdrRes
   | done (o : Outcome)
 deriving Repr
 
-/-- `some_headers_data_read` until the completion handler is called.  Every round either reads
-from the socket (buffer empty) or accounts for the left-over bytes, then runs the parser. -/
-def httpHeaders (cfg : HttpCfg) : Nat → HttpReq → HttpSt → HttpHdrRes × HttpSt
-  | 0, _, st => (.done (.crash "out of fuel"), st)
-  | fuel + 1, r, st =>
-    -- fill or account
-    let filled : Option (HttpReq × HttpSt) :=
-      if st.rest.isEmpty then
-        match st.segs.find? (!·.isEmpty) with
-        | none => none
-        | some s =>
-          let n := min s.length Gen.httpReadCap
-          let cap := max st.cap n
-          match readSome cap st.segs with
-          | none => none
-          | some (got, segs') => some ({ r with totalRead := r.totalRead + got.length }, { rest := got, cap := cap, segs := segs' })
-      else some ({ r with totalRead := r.totalRead + st.rest.length }, st)
-    match filled with
+/-- result of the `for(;;) switch(input_parser_.step())` loop on one buffer -/
+inductive LoopRes
+  /-- `more_data`: the buffer is exhausted -/
+  | more (r : HttpReq)
+  /-- the completion handler was called (or `process_request` answered); `rest` = unread bytes -/
+  | fin (res : HttpHdrRes) (rest : Bytes)
+deriving Repr
+
+/-- the parse loop of `some_headers_data_read` over the unread bytes `s` of the buffer.
+`k` bounds the number of header lines found in this buffer (`2 * s.length + 2` is always enough). -/
+def hdrLoop (cfg : HttpCfg) : Nat → HttpReq → Bytes → LoopRes
+  | 0, _, s => .fin (.done (.crash "out of fuel")) s
+  | k + 1, r, s =>
+    let p := parserRun r.ps s
+    let r := { r with ps := p.2.1 }
+    if p.2.1.under then .fin (.done (.crash "parser: unsigned underflow of header_.size() or bracket_counter_")) p.2.2
+    else if p.1 == Gen.pr_more_data then .more r
+    else if p.1 == Gen.pr_got_header then
+      match httpGotHeader r with
+      | none => .fin (.done (.aborted .violation false false)) p.2.2
+      | some r => hdrLoop cfg k r p.2.2
+    else if p.1 == Gen.pr_end_of_headers then
+      match httpProcess cfg r with
+      | none => .fin (.done .raw400) p.2.2
+      | some h => .fin (.head h r.is11) p.2.2
+    else .fin (.done (.aborted .violation false false)) p.2.2
+
+/-- the first part of `some_headers_data_read`: read from the socket when the buffer is empty
+(`bytes_readable`, the 16 KiB read cap, `reserve`/`resize`, `read_some`), else account for the
+left-over bytes.  Returns the number of bytes added to `total_read_`. -/
+def httpFill (st : HttpSt) : Option (Nat × HttpSt) :=
+  if st.rest.isEmpty then
+    match st.segs.find? (!·.isEmpty) with
+    | none => none
+    | some s =>
+      let n := min s.length Gen.httpReadCap
+      let cap := max st.cap n
+      match readSome cap st.segs with
+      | none => none
+      | some (got, segs') => some (got.length, { rest := got, cap := cap, segs := segs' })
+  else some (st.rest.length, st)
+
+/-- `some_headers_data_read` until the completion handler is called; `total` is `total_read_`. -/
+def httpHeaders (cfg : HttpCfg) : Nat → Nat → HttpReq → HttpSt → HttpHdrRes × HttpSt
+  | 0, _, _, st => (.done (.crash "out of fuel"), st)
+  | fuel + 1, total, r, st =>
+    match httpFill st with
     | none => (.done (.aborted .eof false false), st)
-    | some (r, st) => parseLoop fuel (st.rest.length + 1) r st
-where
-  /-- the `for(;;) switch(input_parser_.step())` loop; `k` bounds the number of headers in the buffer -/
-  parseLoop (fuel : Nat) : Nat → HttpReq → HttpSt → HttpHdrRes × HttpSt
-    | 0, _, st => (.done (.crash "out of fuel"), st)
-    | k + 1, r, st =>
-      let (code, ps, rest) := parserRun r.ps st.rest
-      let r := { r with ps := ps }
-      let st := { st with rest := rest }
-      if ps.under then (.done (.crash "parser: unsigned underflow of header_.size() or bracket_counter_"), st)
-      else if code == Gen.pr_more_data then
-        if r.totalRead > Gen.httpHeaderCap then (.done (.aborted .violation false false), st)
-        else httpHeaders cfg fuel r st
-      else if code == Gen.pr_got_header then
-        match httpGotHeader r with
-        | none => (.done (.aborted .violation false false), st)
-        | some r => parseLoop fuel k r st
-      else if code == Gen.pr_end_of_headers then
-        match httpProcess cfg r with
-        | none => (.done .raw400, st)
-        | some h => (.head h r.is11, st)
-      else (.done (.aborted .violation false false), st)
+    | some (n, st) =>
+      match hdrLoop cfg (2 * st.rest.length + 2) r st.rest with
+      | .fin res rest => (res, { st with rest := rest })
+      | .more r =>
+        if total + n > Gen.httpHeaderCap then (.done (.aborted .violation false false), { st with rest := [] })
+        else httpHeaders cfg fuel (total + n) r { st with rest := [] }
 
 /-- `http::async_read_some(p,s,h)` -/
 def httpReadSome (want : Nat) (st : HttpSt) : Except Err (Bytes × HttpSt) :=
@@ -178,7 +190,7 @@ def httpConn (lim : Limits) (cfg : HttpCfg) : Nat → List Bool → HttpSt → L
     let env0 := Env.empty.addAll
       [(bs Gen.env_SERVER_SOFTWARE, cfg.software), (bs Gen.env_SERVER_NAME, cfg.serverName),
        (bs Gen.env_SERVER_PORT, cfg.port), (bs Gen.env_GATEWAY_INTERFACE, bs Gen.envGateway)]
-    match httpHeaders cfg (streamFuel st) { env := env0 } st with
+    match httpHeaders cfg (streamFuel st) 0 { env := env0 } st with
     | (.done o, _) => [o]
     | (.head h is11, st) =>
       let (o, st) := runRequest lim httpReadSome h st
